@@ -781,6 +781,10 @@ func runEntry(e corpusEntry, sec *vh.Section, verbose bool) {
 		var c holeCase
 		json.Unmarshal(e.Input, &c)
 		runNestingHole(sec, c, verbose)
+	case "lifetime":
+		var c lifetimeCase
+		json.Unmarshal(e.Input, &c)
+		runLifetime(sec, []lifetimeCase{c}, verbose)
 	case "e2e":
 		var b e2eBatch
 		json.Unmarshal(e.Input, &b)
@@ -839,6 +843,7 @@ func main() {
 	sectionPos(rng.Fork("pos"))
 	sectionRobust(rng.Fork("robust"))
 	sectionAdmin(rng.Fork("admin"))
+	sectionLifetime(rng.Fork("lifetime"))
 	sectionE2E(rng.Fork("e2e"))
 	res.Write(args.Out)
 }
